@@ -303,22 +303,34 @@ Lemma constant_tests_known_only :
   forallb (fun q => pair_mem q constant_tests_known) constant_tests = true.
 Proof. vm_compute. reflexivity. Qed.
 
-(* "sleeping is enabled" is spelled in two different ways: with and without the ISLAND bit.  The sites
-   WITHOUT it disagree with the sites WITH it exactly when SLEEP is enabled and ISLAND disabled.  Today the
-   list without it contains solver.solve (which then runs the compact solver on arrays make_data did not
-   allocate); replayed on the real code by bin/props/C32.py (finding
-   C32:solver.solve:sleep-enabled-island-disabled-crash).  The statement does not name solver.solve so that it
-   survives the repair of that one site (collision_driver and reset_data also test SLEEP alone, harmlessly). *)
-Theorem sleep_guard_consistent_refuted :
-  sleep_sites_without_island <> nil /\ In "forward.fwd_acceleration" sleep_sites_with_island /\
-  In "io.make_data" sleep_sites_with_island.
+(* "sleeping is enabled": since /repo 783455b every function that chooses the sleep code path, allocates for it
+   or consumes its arrays tests SLEEP-and-not-ISLAND; the only direct tests of SLEEP alone are in the committed
+   list sleep_only_harmless (Model/Flags.v says why each is harmless).  Before the repair solver.solve tested
+   SLEEP alone and the real step crashed with SLEEP enabled and ISLAND disabled (finding
+   C32:solver.solve:sleep-enabled-island-disabled-crash, kept as a regression case in bin/props/C32.py). *)
+Lemma sleep_guard_ok_true : sleep_guard_ok = true.
+Proof. vm_compute. reflexivity. Qed.
+
+Theorem sleep_guard_consistent :
+  (forall q, In q sleep_guard_sites -> In "DisableBit.ISLAND" (snd q) \/ In (fst q) sleep_only_harmless) /\
+  (forall f, In f sleep_must_test_island -> In f sleep_sites_with_island /\ ~ In f sleep_sites_without_island) /\
+  (forall f, In f sleep_sites_without_island <-> In f sleep_only_harmless).
 Proof.
-  assert (E1 : nonempty sleep_sites_without_island = true) by (vm_compute; reflexivity).
-  assert (E2 : mem "forward.fwd_acceleration" sleep_sites_with_island = true) by (vm_compute; reflexivity).
-  assert (E3 : mem "io.make_data" sleep_sites_with_island = true) by (vm_compute; reflexivity).
-  apply mem_In in E2. apply mem_In in E3.
-  split; [| split; [exact E2 | exact E3]].
-  intro H. rewrite H in E1. discriminate E1.
+  pose proof sleep_guard_ok_true as H. unfold sleep_guard_ok in H.
+  destruct (andb_prop _ _ H) as [H1 H3]. destruct (andb_prop _ _ H1) as [Ha Hb].
+  assert (A : forall q, In q sleep_guard_sites -> In "DisableBit.ISLAND" (snd q) \/ In (fst q) sleep_only_harmless).
+  { intros q Hq. pose proof (forallb_In _ _ _ q Ha Hq) as E. cbv beta in E.
+    apply orb_true_iff in E. destruct E as [E | E]; [left | right]; apply mem_In; exact E. }
+  split; [exact A | split].
+  - intros f Hf. pose proof (forallb_In _ _ _ f Hb Hf) as E. cbv beta in E.
+    destruct (andb_prop _ _ E) as [E1 E2]. split; [apply mem_In; exact E1|].
+    apply mem_false_notIn. apply negb_true_iff. exact E2.
+  - intro f. split.
+    + intro Hf. unfold sleep_sites_without_island in Hf. apply (proj1 (dedup_In _ _)) in Hf.
+      apply in_map_iff in Hf. destruct Hf as [q [Eq Hq]]. apply filter_In in Hq. destruct Hq as [Hq Hn].
+      destruct (A q Hq) as [Hi | Hh]; [| rewrite <- Eq; exact Hh].
+      apply mem_In in Hi. rewrite Hi in Hn. discriminate Hn.
+    + intro Hf. apply mem_In. exact (forallb_In _ _ _ f H3 Hf).
 Qed.
 
 (* ====================================================================================== *)
